@@ -183,6 +183,20 @@ func c01Run(c *engine.Ctx) {
 	runGrammarVsModel(c, GrammarF4(), sz["F4"], inputs[:8], nil)
 	runGrammarVsModel(c, GrammarFull(), sz["full"], inputs, nil)
 
+	// recursion whose self call stands below a binding with a generator in between: the outer frame is read again
+	// after the inner call has returned (the family of C04, here against the reference interpreter)
+	c.Sub("recursion-frames")
+	{
+		progs, bins := c04BoundTailcalls()
+		for pi, prog := range progs {
+			if !c.MineIdx(pi) || c.Expired() {
+				continue
+			}
+			compareProgram(c, prog, bins, nil)
+		}
+		c.Sample(map[string]any{"program": progs[0], "programs": len(progs)})
+	}
+
 	// labels are lexically scoped: a label of the same name nested inside another one, with closures that break out
 	// defined before, between and inside them
 	c.Sub("label-scoping")
